@@ -1,6 +1,6 @@
-\* C12 level A monitor: decides recorded traces; StreakK = 5 consecutive failures of one signal
-\* (>= 17.7 s of unscaled back-off) by which the healthy signals must have been delivered.
+\* C12 level A monitor: decides recorded traces; StreakK = 7 consecutive failures of one signal
+\* (>= 37.7 s of unscaled back-off, 1.9 s when scaled by 1/20) by which the healthy signals must have been delivered.
 SPECIFICATION Spec
-CONSTANT StreakK = 5
+CONSTANT StreakK = 7
 POSTCONDITION TraceAccepted
 CHECK_DEADLOCK FALSE
